@@ -318,9 +318,9 @@ func (r *recorder) recordIncomingRTCP(latestStats internalStats, incoming *incom
 				latestStats.OutboundRTPStreamStats.NACKCount++
 			}
 		case *rtcp.FullIntraRequest:
-			if pkt.MediaSSRC == r.ssrc {
-				latestStats.OutboundRTPStreamStats.FIRCount++
-			}
+			// The destination check above already matched one of the FCI entries;
+			// the media SSRC of a FIR header is unused (RFC 5104, section 4.3.1.2).
+			latestStats.OutboundRTPStreamStats.FIRCount++
 		case *rtcp.PictureLossIndication:
 			if pkt.MediaSSRC == r.ssrc {
 				latestStats.OutboundRTPStreamStats.PLICount++
